@@ -479,7 +479,12 @@ const (
 
 // ExecScenario prepares the command at path to behave as stated when executed; text is what it prints.
 func ExecScenario(path string, scenario int, text string) {
-	body := "#!/bin/sh\nprintf '%s' '" + text + "'\n"
+	ExecScenarioStderr(path, scenario, text, "")
+}
+
+// ExecScenarioStderr is ExecScenario with a text the command writes to its standard error.
+func ExecScenarioStderr(path string, scenario int, text string, stderr string) {
+	body := "#!/bin/sh\nprintf '%s' '" + text + "'\nprintf '%s' '" + stderr + "' >&2\n"
 	mode := os.FileMode(0o755)
 	switch scenario {
 	case ExecExitError:
